@@ -11,6 +11,7 @@ type Prop struct {
 	NotDecided string   // what the check does not decide
 	Assume     []string // assumptions / trusted base
 	Technique  string   // a few words naming the deciding method
+	QuickCfgs  []string // configurations analysed in the quick tier (default: amd64)
 }
 
 var All = map[string]*Prop{}
@@ -96,10 +97,15 @@ func init() {
 		"that prec+2 working digits and the final multiplication give the correctly rounded root (numeric, not applicable)",
 		techCDAI, cdaiAssume, fxAssume)
 	p("C07",
-		[]string{"CONST"},
-		[]string{"E6-CONST: word-base constants (_DB=10^_DW, _DW, _DWb, _DMax), pow10tab, pow2digitsTab, decMaxPow32/64, pow5tab, the reciprocal constant mP of div10W_g, every pow10DivTab64/32 entry (exact-division criterion proved for every word-sized dividend), layout of struct magic, enumerator equality with math/big."},
-		"instruction-level equivalence of an assembly body and its portable twin (needs symbolic execution of x86 code, a different technique family)",
-		"constant/table evaluation against mathematical definitions (go/types constants + math/big on source constants)")
+		[]string{"CONST", "ASM", "ASM-PURE", "BUILDTAGS", "FX-IMMUT@_g/|VV/|VW/|VU/|WW/"},
+		[]string{
+			"E6-CONST: word-base constants (_DB=10^_DW, _DW, _DWb, _DMax), pow10tab, pow2digitsTab, decMaxPow32/64, pow5tab, the reciprocal constant mP of div10W_g, every pow10DivTab64/32 entry (exact-division criterion proved for every word-sized dividend), layout of struct magic, enumerator equality with math/big.",
+			"E7-ASM: the TEXT symbols of dec_arith_amd64.s are exactly the body-less declarations; every name+off(FP) reference matches the Go signature's frame layout and every result slot is written; #define _DB/_DMax/_DW and the reciprocal immediate equal the Go constants; every memory store goes through R10, loaded exactly once from z+0(FP), or into a result slot (kernels write only their destination); the 4x unrolled bodies of add10VV, sub10VV, add10VW, sub10VW and decCpy equal their tail loop instantiated four times; the three inlined copies of div10W equal div10W.",
+			"ASM-PURE (pure-Go configurations): every kernel wrapper forwards its own parameters in order to the _g twin of the same name and signature; BUILDTAGS: assembly declarations and wrappers are exact complements over all occurring tags, the .s file follows the declarations, nothing else is build-conditional and no code dispatches on the architecture at run time; FX-IMMUT: the portable twins write only their destination slice.",
+		},
+		"instruction-level equivalence of an assembly body and its portable twin (needs symbolic execution of x86 code, a different technique family); that either equals the mathematical definition",
+		"lints over the assembly text and build constraints, sibling-congruence of unrolled/inlined code sequences, constant/table evaluation (go/types constants + math/big on source constants)", fxAssume)
+	All["C07"].QuickCfgs = []string{"amd64", "purego"}
 	p("C09",
 		[]string{"FX-STICKY", "FX-IMMUT", "FX-OWN", "T-UNARY@Set(|SetInt|SetUint64(|NewDecimal(|Sqrt(", "T-ARITH@prec=[0", "T-CONV@SetFloat64("},
 		[]string{
